@@ -48,7 +48,8 @@ def make_config(rng, anchored):
         "sibling": rng.random() < 0.4,
         "count_exclude": rng.random() < 0.5,
     }
-    t = ['version = "2"', "[scanner]", "gitignore = false"]
+    fam["gitignore"] = rng.random() < 0.6
+    t = ['version = "2"', "[scanner]", "gitignore = %s" % ("true" if fam["gitignore"] else "false")]
     t.append("exclude = [%s]" % ", ".join(json.dumps(x) for x in ([".git/**"] + ([pat("vendor/**")] if fam["scanner_exclude"] else []))))
     t += ["[content]", 'extensions = ["rs"]', "max_lines = %d" % lim]
     if fam["content_exclude"]:
@@ -134,6 +135,9 @@ def run(ctx):
             anchored = ctx.rng.random() < 0.75
             cfg, fam = make_config(ctx.rng, anchored)
             sb.write(".sloc-guard.toml", cfg)
+            if fam["gitignore"]:
+                # an ignore file ABOVE the sub-directory roots: it must be honoured under every spelling
+                sb.write(".gitignore", "\n".join(ctx.rng.sample(["src/c.rs", "src/gen/", "/src/util/", "*.bin", "tests/"], 2)) + "\n")
             base_rc, base = run_check(sb, exe, "noarg")
             evals += 1
             if "<unparsable>" in base:
